@@ -13,6 +13,7 @@ import Scalibr.Proofs.Lockfiles
 import Scalibr.Proofs.Parsers.Gemfile
 import Scalibr.Proofs.Parsers.Dpkg
 import Scalibr.Proofs.Parsers.Requirements
+import Scalibr.Proofs.Parsers.GoShape
 namespace Scalibr.Parsers
 
 /-! ### apk `installed` -/
@@ -59,7 +60,8 @@ theorem C03_gradle (ℓ : Gradle.Layout) (rs : List Gradle.GRec) (hwf : Gradle.W
     rcases hm with hm | ⟨f, hf, rfl⟩
     · exact Gradle.bodyLines_clean ℓ.before rs 0 hwf hb l hm
     · exact Gradle.fillerLine_clean f (hlw.2 f hf)
-  unfold Gradle.parse Gradle.render
+  rw [Gradle.parse_eq]
+  unfold Gradle.render
   rw [scan_unlines _ _ _ hclean hl]
   simp only [Gradle.fileLines, List.filterMap_append, Gradle.filterMap_body ℓ.before rs 0 hwf hb,
     Gradle.filterMap_fillers ℓ.after hlw.2]
@@ -87,7 +89,8 @@ entry of the source sections GIT, GEM, PATH and PLUGIN SOURCE, in file order —
 theorem C03_gemfile (ℓ : Gemfile.Layout) (secs : List Gemfile.GSec) (hwf : Gemfile.WF secs) (hl : Gemfile.LayoutOK ℓ secs) :
     Gemfile.parse (Gemfile.render ℓ secs) = .ok (Gemfile.installed secs) := by
   have hclean : ∀ l ∈ Gemfile.fileLines ℓ secs, cleanLine l := Gemfile.bodyLines_clean ℓ.lead secs hwf 0
-  unfold Gemfile.parse Gemfile.render
+  rw [Gemfile.parse_eq]
+  unfold Gemfile.render
   rw [scan_unlines _ _ _ hclean hl]
   simp only [Gemfile.fileLines, Gemfile.gemSections_body ℓ.lead secs hwf 0 none [], Gemfile.flush, List.nil_append,
     Gemfile.pkgsOf_toSec secs hwf]
@@ -121,7 +124,8 @@ they stand (first, last, alone). -/
 theorem C03_dpkg (ℓ : Dpkg.Layout) (rs : List Dpkg.GRec) (hwf : Dpkg.WF rs) (hl : Dpkg.LayoutOK ℓ rs) :
     Dpkg.parse (Dpkg.render ℓ rs) = .ok (Dpkg.installed rs) := by
   have hclean := Dpkg.fileLines_clean ℓ rs hwf
-  unfold Dpkg.parse Dpkg.render
+  rw [Dpkg.parse_eq]
+  unfold Dpkg.render
   rw [Dpkg.rlines_unlines _ (fun l h => ⟨(hclean l h).1, (hclean l h).2.1⟩) _ _ (Dpkg.fileLines_endsOK ℓ rs hwf hl)]
   have := Dpkg.loop_body ℓ.gap ℓ.tail rs hwf ℓ.lead 0 ((Dpkg.fileLines ℓ rs).length + 2) [] (by simp [Dpkg.fileLines])
   simp only [Dpkg.fileLines] at this ⊢
@@ -129,7 +133,8 @@ theorem C03_dpkg (ℓ : Dpkg.Layout) (rs : List Dpkg.GRec) (hwf : Dpkg.WF rs) (h
 
 /-- non-vacuity: three stanzas — fields in dpkg's own order with a multi-line Description whose continuation
 lines look like fields; a stanza with lower-case keys, `Version` first and a Source field; and, in LAST position and
-without a final newline, a package that is NOT installed (`deinstall ok config-files`) -/
+without a final newline, a package that is NOT installed (`deinstall ok config-files`) and, as usual for such records,
+has no `Version` field at all -/
 def Dpkg.exRecs : List Dpkg.GRec :=
   [ { name := "libc6".toList, ver := "2.36-9+deb12u4".toList,
       extras := [⟨"Architecture".toList, [' '], "amd64".toList, []⟩,
@@ -141,9 +146,8 @@ def Dpkg.exRecs : List Dpkg.GRec :=
       keyP := "package".toList, keyV := "VERSION".toList, sepV := [], sepP := [' ', '\t'],
       fields := [⟨"VERSION".toList, [], "3.134".toList, []⟩, ⟨"Source".toList, [' '], "adduser-src (3.134)".toList, []⟩,
                  ⟨"package".toList, [' ', '\t'], "adduser".toList, []⟩, ⟨"Status".toList, [' '], "hold ok installed".toList, []⟩] },
-    { name := "oldpkg".toList, ver := "1:0.9-1".toList, want := "deinstall".toList, state := "config-files".toList,
-      fields := [⟨"Package".toList, [' '], "oldpkg".toList, []⟩, ⟨"Status".toList, [' '], "deinstall ok config-files".toList, []⟩,
-                 ⟨"Version".toList, [' '], "1:0.9-1".toList, []⟩] } ]
+    { name := "oldpkg".toList, ver := [], want := "deinstall".toList, state := "config-files".toList,
+      fields := [⟨"Package".toList, [' '], "oldpkg".toList, []⟩, ⟨"Status".toList, [' '], "deinstall ok config-files".toList, []⟩] } ]
 def Dpkg.exLayout : Dpkg.Layout := { lead := 1, gap := fun i => i, tail := 0, eols := ⟨[true, false, true, true], false⟩ }
 example : Dpkg.WF Dpkg.exRecs ∧ Dpkg.LayoutOK Dpkg.exLayout Dpkg.exRecs := by decide
 example : Dpkg.parse (Dpkg.render Dpkg.exLayout Dpkg.exRecs)
@@ -158,8 +162,9 @@ and `-C`-containing names included, cf. fixes c0539e29 and 0b3783b7), optional e
 in every layout (requirements in any order; blank, white-space-only, comment and global-option lines anywhere;
 LF/CRLF per line; final newline or not) is read back exactly: every name with the version its operator names
 (empty for a bare name), in file order. Environment markers, per-requirement options and backslash continuations
-are outside this theorem (differential stream only). -/
-theorem C03_requirements (ℓ : Requirements.Layout) (rs : List Requirements.GRec) (hwf : Requirements.WF rs)
+are outside this theorem (differential stream only) — hence `_partial`: `WF` is a proper subset of the requirements grammar
+(no `!=` / `<` / `>` / version lists / markers / options / continuations / `name @ url`). -/
+theorem C03_requirements_partial (ℓ : Requirements.Layout) (rs : List Requirements.GRec) (hwf : Requirements.WF rs)
     (hlw : Requirements.LayoutWF ℓ rs.length) (hl : Requirements.LayoutOK ℓ rs) :
     Requirements.parse (Requirements.render ℓ rs) = .ok (Requirements.installed rs) := by
   have hb : ∀ j, 0 ≤ j → j < 0 + rs.length → ∀ f ∈ ℓ.before j, Requirements.WFfiller f :=
@@ -180,7 +185,8 @@ theorem C03_requirements (ℓ : Requirements.Layout) (rs : List Requirements.GRe
     rcases List.mem_append.mp hx with hx | hx
     · exact Requirements.bodyPairs_single ℓ.before rs 0 hwf hb x hx
     · exact Requirements.fillerPairs_single ℓ.after hlw.2 x hx
-  unfold Requirements.parse Requirements.render
+  rw [Requirements.parse_eq]
+  unfold Requirements.render
   rw [scan_unlines _ _ _ hclean hl]
   have := Requirements.loop_singles pairs hsingle ((Requirements.fileLines ℓ rs).length + 1) [] (by rw [← hfst]; simp)
   rw [hfst] at this
@@ -202,11 +208,20 @@ example : Requirements.WF Requirements.exRecs ∧ Requirements.LayoutWF Requirem
 example : Requirements.parse (Requirements.render Requirements.exLayout Requirements.exRecs)
     = .ok [("zope.interface".toList, "5.0".toList), ("q".toList, "1!2.0.post1".toList),
            ("Flask-Cors".toList, "3.0.10".toList), ("requests".toList, [])] :=
-  C03_requirements _ _ (by decide) (by decide) (by decide)
+  C03_requirements_partial _ _ (by decide) (by decide) (by decide)
 
 end Scalibr.Parsers
 
-/-! ## (b) formats decoded by a library: the record loop over the decoded document equals a comprehension -/
+/-! ## (b) formats decoded by a library: the record loop over the decoded document equals a comprehension
+
+LEVEL of these theorems: they start at the DECODED document (the Go struct the extractor ranges over). None of them covers a
+layout clause of the property (record order in the file, CRLF, trailing newline, blank lines, comments, unrelated fields):
+the decoder (encoding/json, BurntSushi/toml, x/mod/modfile) is trusted and not a Lean parameter; those clauses are checked
+for these seven formats only by the generator/oracle stream. What IS proved is the part of "none dropped, duplicated, merged
+or invented" that the extractor's own loop is responsible for: de-duplication keys, last/first-write-wins, flattening,
+alias / file: / git handling, replace directives. What an entry denotes (`depEntry`, `pkgEntry`, `GoMod.step`) is taken from
+the model — i.e. these are refinement statements "loop = fold of per-entry function", not an independent grammar of aliases
+or of go.mod replace semantics (observed deviations from Go's own semantics — chained replaces — are listed in the check's notes). -/
 namespace Scalibr.Lockfiles
 open Scalibr.Parsers
 
@@ -264,7 +279,14 @@ example : PackageLock.extract PackageLock.exDoc = .ok
      ⟨"foo".toList, [], []⟩, ⟨"loc".toList, [], []⟩, ⟨"g".toList, [], "abc".toList⟩] := by decide
 example : ∀ e ∈ PackageLock.writes PackageLock.exDoc, ∀ e' ∈ PackageLock.writes PackageLock.exDoc, e.1 = e'.1 → e.2 = e'.2 := by decide
 
-/-! ### composer.lock, Cargo.lock, poetry.lock: every listed package, once per listing, in order -/
+/-! ### composer.lock, Cargo.lock, poetry.lock: DEFINITIONAL
+
+For these three formats the extractor's record loop is `append` / `map` over the decoded arrays, and so is the model: the
+three statements below are restatements of the model definitions (`rfl` / one `simp`), kept only so that the driver's use of
+`Composer.extract` / `Cargo.extract` / `Poetry.extract` has a named reference. They carry NO property content of their own:
+for these formats the whole of C03 sits in the trusted JSON / TOML decoder and is checked only by the generator/oracle
+stream (all layouts, through the real Extract). They are not counted as proof obligations of C03 (checks/c03.py lists them
+under `definitional`). -/
 
 theorem C03_composer (d : Composer.Doc) :
     Composer.extract d = d.packages ++ d.packagesDev ∧
